@@ -147,6 +147,11 @@ def build(thorough):
     ob('model_params4[multi-value records]', 'C04_model.py', 'model_params4', {}, timeout=max(T, 450))
     ob('finding_omega_insert_into_diag[model level]', 'C04_model.py', 'model_params4', dict(VH_REGION='join_middle_of_diag'))
     ob('model_params4__twin', 'C04_model.py', 'model_params4__twin', {}, timeout=150, kind='twin')
+    # five etas: multi-value diagonal record + BLOCK(3), members split off (default names re-written at other positions)
+    ob('model_params5[diag + block(3), split]', 'C04_model.py', 'model_params5', {}, timeout=max(T, 450))
+    ob('model_params5__twin', 'C04_model.py', 'model_params5__twin', {}, timeout=150, kind='twin')
+    ob('finding_default_omega_name_after_removal[model level]', 'C04_model.py', 'model_params',
+       dict(VH_EDIT=MEDITS.index('remove_iiv_first'), VH_REGION='default_name_after_removal'), timeout=max(T, 450))
     # twins --------------------------------------------------------------------------------------------------------------
     for func, file, env in (('diff_ok', LCS, dict(VH_N=3)), ('reorder_ok', LCS, dict(VH_N=3)),
                             ('thetas_ok', UPD, dict(VH_K=2)), ('omegas_ok', UPD, dict(VH_K=2)),
